@@ -1,67 +1,92 @@
 /-
 C13 — case-insensitive ordered containers behave like their reference model.
 
-Property theorems only; helper lemmas are in `Lemmas/CIMap.lean`, the model of the code in
-`Model/CIMap.lean`, the reference model (what the reader has to agree with) in
-`Spec/OrderedMap.lean`.
+Property theorems only; helper lemmas are in `Lemmas/CIMapU.lean`, the model of the code in
+`Model/CIMapU.lean`, the reference model (what the reader has to agree with) in
+`Spec/OrderedMapU.lean`.
+
+Every theorem is stated for an ARBITRARY key normaliser `norm : Str → Str`; those that need
+anything of it assume exactly `hn : ∀ k, norm (norm k) = norm k`.  The driver runs the model with
+`norm := lowerPy` (`str.lower()` of the running interpreter on whole strings, including the
+U+0130 expansion and the final-sigma rule); `C13_lower_idempotent` discharges `hn` for it and the
+`*_lowerPy` theorems are the instances.  So the only fact about `str.lower()` the C13 theorems rely
+on is its idempotence.
 -/
 import PybtexModel.Lemmas.CIMapU
 
 namespace Pybtex.Props
 open Pybtex Pybtex.Uni Pybtex.Uni.CIDict
-variable {V : Type}
+variable {V : Type} {norm : Str → Str}
 
 /-- The code's two tables stay in lock step — same lower-cased keys in the same order, no
 duplicate, every stored spelling lower-cases to its key — from construction (with *any* list of
 pairs) through *every* history of operations.  In particular the half-updated state that
 `__delitem__` could leave behind (first table changed, `KeyError` from the second) is
 unreachable. -/
-theorem C13_lockstep (ps : List (Str × V)) (ops : List (Op V)) :
-    CIDict.Inv (CIDict.run (CIDict.ofPairs ps) ops).1 :=
-  (run_refines (ofPairs_spec ps).1 ops).1
+theorem C13_lockstep (hn : ∀ k, norm (norm k) = norm k) (ps : List (Str × V)) (ops : List (Op V)) :
+    CIDict.Inv norm (CIDict.run norm (CIDict.ofPairs norm ps) ops).1 :=
+  (run_refines hn (ofPairs_spec ps).1 ops).1
 
 /-- Refinement: every history of operations on the implementation model, started from a
-constructor call whose pairs have pairwise distinct (exact) keys, produces exactly the results
-of the reference ordered map, and ends in a state whose abstraction is the reference state. -/
-theorem C13_refines (ps : List (Str × V)) (hps : (ps.map Prod.fst).Nodup) (ops : List (Op V)) :
-    CIDict.abs (CIDict.run (CIDict.ofPairs ps) ops).1 = (OMap.run (OMap.ofPairs ps) ops).1 ∧
-    (CIDict.run (CIDict.ofPairs ps) ops).2 = (OMap.run (OMap.ofPairs ps) ops).2 := by
-  have h := ofPairs_spec ps
-  rw [dofPairs_nodup ps hps] at h
-  have := run_refines h.1 ops
+constructor call with ANY list of pairs (repeated keys and case variants included), produces
+exactly the results of the reference ordered map started from writing those pairs one after the
+other, and ends in a state whose abstraction is the reference state. -/
+theorem C13_refines (hn : ∀ k, norm (norm k) = norm k) (ps : List (Str × V)) (ops : List (Op V)) :
+    CIDict.abs (CIDict.run norm (CIDict.ofPairs norm ps) ops).1 = (OMap.run norm (OMap.ofPairs norm ps) ops).1 ∧
+    (CIDict.run norm (CIDict.ofPairs norm ps) ops).2 = (OMap.run norm (OMap.ofPairs norm ps) ops).2 := by
+  have h := ofPairs_spec (norm := norm) ps
+  have := run_refines hn h.1 ops
   rw [h.2] at this
   exact this.2
 
-/-- the hypotheses of `C13_refines` are satisfiable by a non-trivial history -/
+/-- a non-trivial history (constructor pairs with a repeated key between case variants, keys with
+U+0130 and a final sigma) -/
 theorem C13_refines_nonvacuous :
-    (CIDict.run (CIDict.ofPairs [("Uno".toList, (1 : Int)), ("dos".toList, 2)])
-      [.set "UNO".toList 7, .del "Dos".toList, .get "uno".toList, .iter]).2
-      = [.unit, .unit, .val 7, .keys ["UNO".toList]] := by decide
+    (CIDict.run lowerPy (CIDict.ofPairs lowerPy [("A".toList, (1 : Int)), ("a".toList, 2), ("A".toList, 3), ("ΑΣ".toList, 4)])
+      [.items, .set "İ".toList 7, .del "ας".toList, .get "i̇".toList, .iter, .modify "a".toList (· + 1), .values]).2
+      = [.items [("A".toList, 3), ("ΑΣ".toList, 4)], .unit, .unit, .val 7, .keys ["A".toList, "İ".toList], .unit, .vals [4, 7]] := by
+  decide +kernel
 
-theorem C13_lookup_ignores_case (d : CIDict V) (k k' : Str) (h : lowerU k = lowerU k') :
-    getItem d k = getItem d k' ∧ contains d k = contains d k' := by
-  simp [getItem, contains, h]
+/-- Lookups ignore case: two spellings with the same normal form address the same entry in every
+operation that takes a key (same result, same state afterwards), and a value written under one
+spelling is found under the other. -/
+theorem C13_lookup_ignores_case (d : CIDict V) (k k' : Str) (h : norm k = norm k') :
+    getItem norm d k = getItem norm d k' ∧ contains norm d k = contains norm d k' ∧
+    (∀ x, step norm d (.getD k x) = step norm d (.getD k' x)) ∧
+    step norm d (.del k) = step norm d (.del k') ∧
+    step norm d (.pop k) = step norm d (.pop k') ∧
+    (∀ x, step norm d (.popD k x) = step norm d (.popD k' x)) ∧
+    (∀ v, getItem norm (setItem norm d k v) k' = some v) := by
+  have e1 : getItem norm d k = getItem norm d k' := by simp only [getItem, h]
+  have e2 : delItem norm d k = delItem norm d k' := by simp only [delItem, h]
+  have e3 : ∀ x, pop norm d k x = pop norm d k' x := by intro x; simp only [pop, e1, e2]
+  refine ⟨e1, by simp only [contains, h], ?_, ?_, ?_, ?_, ?_⟩
+  · intro x; simp only [step, getD, e1]
+  · simp only [step, e2]
+  · simp only [step, e3]
+  · intro x; simp only [step, e3]
+  · intro v; simp [getItem, setItem, h, dget_dset_same]
 
 /-- Overwriting an existing key keeps its position in the iteration order, replaces the
 remembered spelling by the new one, and stores the value. -/
-theorem C13_overwrite_keeps_position (d : CIDict V) (hd : CIDict.Inv d) (k : Str) (v : V)
-    (hk : contains d k = true) :
-    (∃ pre sp post, iter d = pre ++ sp :: post ∧ lowerU sp = lowerU k ∧
-        iter (setItem d k v) = pre ++ k :: post) ∧
-    getItem (setItem d k v) k = some v ∧ len (setItem d k v) = len d := by
+theorem C13_overwrite_keeps_position (d : CIDict V) (hd : CIDict.Inv norm d) (k : Str) (v : V)
+    (hk : contains norm d k = true) :
+    (∃ pre sp post, iter d = pre ++ sp :: post ∧ norm sp = norm k ∧
+        iter (setItem norm d k v) = pre ++ k :: post) ∧
+    getItem norm (setItem norm d k v) k = some v ∧ len (setItem norm d k v) = len d := by
   have hs := abs_setItem hd k v
   have hi := inv_setItem hd k v
   refine ⟨?_, ?_, ?_⟩
   · rw [iter_abs hd, iter_abs hi, hs]
     have hwf := (abs_wf hd).1
-    have hh : OMap.has (CIDict.abs d) k = true := by rw [← contains_abs hd]; exact hk
+    have hh : OMap.has norm (CIDict.abs d) k = true := by rw [← contains_abs hd]; exact hk
     generalize CIDict.abs d = m at hh hwf
     induction m with
     | nil => simp [OMap.has, OMap.get] at hh
     | cons e m ih =>
       obtain ⟨l, sp, w⟩ := e
       simp only [OMap.has, OMap.get] at hh
-      by_cases hl : l = lowerU k
+      by_cases hl : l = norm k
       · refine ⟨[], sp, OMap.keys m, by simp [OMap.keys], ?_, by simp [OMap.set, hl, OMap.keys]⟩
         rw [← hl]; exact (hwf (l, sp, w) (by simp)).symm
       · rw [if_neg hl] at hh
@@ -79,21 +104,21 @@ theorem C13_overwrite_keeps_position (d : CIDict V) (hd : CIDict.Inv d) (k : Str
       split
       · rename_i hl; simp [OMap.get, hl]
       · rename_i hl; simp [OMap.get, hl, ih]
-  · have h1 : lowerU k ∈ d.dict.map Prod.fst := (dhas_iff_mem _ _).1 hk
-    have : (dset d.dict (lowerU k) v).length = d.dict.length := by
-      have := congrArg List.length (dset_keys_of_mem d.dict (lowerU k) v h1)
+  · have h1 : norm k ∈ d.dict.map Prod.fst := (dhas_iff_mem _ _).1 hk
+    have : (dset d.dict (norm k) v).length = d.dict.length := by
+      have := congrArg List.length (dset_keys_of_mem d.dict (norm k) v h1)
       simpa using this
     simpa [len, setItem] using this
 
 /-- A key that is not present is appended: iteration follows first insertion. -/
 theorem C13_first_insertion_order (d : CIDict V) (k : Str) (v : V)
-    (hk : contains d k = false) (hd : CIDict.Inv d) :
-    iter (setItem d k v) = iter d ++ [k] ∧ getItem (setItem d k v) k = some v := by
-  have hnot : lowerU k ∉ d.keys.map Prod.fst := by
+    (hk : contains norm d k = false) (hd : CIDict.Inv norm d) :
+    iter (setItem norm d k v) = iter d ++ [k] ∧ getItem norm (setItem norm d k v) k = some v := by
+  have hnot : norm k ∉ d.keys.map Prod.fst := by
     rw [← hd.1]
-    apply (dget_none_iff d.dict (lowerU k)).1
+    apply (dget_none_iff d.dict (norm k)).1
     simp only [contains, dhas] at hk
-    cases h : dget d.dict (lowerU k) with
+    cases h : dget d.dict (norm k) with
     | none => rfl
     | some x => rw [h] at hk; simp at hk
   constructor
@@ -102,62 +127,65 @@ theorem C13_first_insertion_order (d : CIDict V) (k : Str) (v : V)
 
 /-- Deleting a present key removes exactly that key: it is gone, every other key keeps its
 value, the remaining keys keep their order, and the length drops by one. -/
-theorem C13_delete_exact (d : CIDict V) (hd : CIDict.Inv d) (k : Str) (hk : contains d k = true) :
-    (delItem d k).2 = true ∧
-    contains (delItem d k).1 k = false ∧
-    (∀ k', lowerU k' ≠ lowerU k → getItem (delItem d k).1 k' = getItem d k') ∧
-    (iter (delItem d k).1).Sublist (iter d) ∧
-    len (delItem d k).1 + 1 = len d := by
-  have hkeys : dhas d.keys (lowerU k) = true := by rw [zipT_has_keys hd.1]; exact hk
-  have hk' : dhas d.dict (lowerU k) = true := hk
-  have heq : delItem d k = (⟨ddel d.dict (lowerU k), ddel d.keys (lowerU k)⟩, true) := by
+theorem C13_delete_exact (d : CIDict V) (hd : CIDict.Inv norm d) (k : Str) (hk : contains norm d k = true) :
+    (delItem norm d k).2 = true ∧
+    contains norm (delItem norm d k).1 k = false ∧
+    (∀ k', norm k' ≠ norm k → getItem norm (delItem norm d k).1 k' = getItem norm d k') ∧
+    (iter (delItem norm d k).1).Sublist (iter d) ∧
+    len (delItem norm d k).1 + 1 = len d := by
+  have hkeys : dhas d.keys (norm k) = true := by rw [zipT_has_keys hd.1]; exact hk
+  have hk' : dhas d.dict (norm k) = true := hk
+  have heq : delItem norm d k = (⟨ddel d.dict (norm k), ddel d.keys (norm k)⟩, true) := by
     simp [delItem, hk', hkeys]
   rw [heq]
-  have hmem : lowerU k ∈ d.dict.map Prod.fst := by
+  have hmem : norm k ∈ d.dict.map Prod.fst := by
     apply Classical.byContradiction
     intro hn
-    have := (dget_none_iff d.dict (lowerU k)).2 hn
+    have := (dget_none_iff d.dict (norm k)).2 hn
     simp [dhas, this] at hk'
   refine ⟨rfl, ?_, ?_, ?_, ?_⟩
   · simp only [contains, dhas]
     have hn : (d.dict.map Prod.fst).Nodup := by rw [hd.1]; exact hd.2.1
-    have := (dget_none_iff _ _).2 (ddel_not_mem d.dict (lowerU k) hn)
+    have := (dget_none_iff _ _).2 (ddel_not_mem d.dict (norm k) hn)
     simp [this]
   · intro k' hne
     simp [getItem, dget_ddel_ne _ _ _ hne]
-  · exact (ddel_sublist d.keys (lowerU k)).map Prod.snd
+  · exact (ddel_sublist d.keys (norm k)).map Prod.snd
   · simp only [len]
-    have := congrArg List.length (ddel_keys d.dict (lowerU k))
+    have := congrArg List.length (ddel_keys d.dict (norm k))
     simp only [List.length_map] at this
     rw [this, List.length_erase_of_mem hmem]
     have : 0 < (d.dict.map Prod.fst).length := List.length_pos_of_mem hmem
     simp only [List.length_map] at this ⊢
     omega
 
-/-- Length, containment, iteration and `items()` always agree with each other. -/
-theorem C13_len_contains_iter_agree (d : CIDict V) (hd : CIDict.Inv d) :
+/-- Length, containment, iteration, `keys()`, `values()`, `items()` and `bool()` always agree with
+each other. -/
+theorem C13_len_contains_iter_agree (d : CIDict V) (hd : CIDict.Inv norm d) :
     len d = (iter d).length ∧
-    (∀ k, contains d k = true ↔ lowerU k ∈ (iter d).map lowerU) ∧
-    (∃ its, items d = some its ∧ its.map Prod.fst = iter d ∧
-       ∀ p ∈ its, getItem d p.1 = some p.2) := by
-  refine ⟨?_, ?_, ?_⟩
+    (∀ k, contains norm d k = true ↔ norm k ∈ (iter d).map norm) ∧
+    (∃ its, items norm d = some its ∧ its.map Prod.fst = iter d ∧
+       (∀ p ∈ its, getItem norm d p.1 = some p.2) ∧
+       values norm d = some (its.map Prod.snd)) ∧
+    keysView d = iter d ∧ (truth d = true ↔ iter d ≠ []) ∧ ((iter d).map norm).Nodup := by
+  have hl : (iter d).map norm = d.keys.map Prod.fst := by
+    simp only [iter, List.map_map]
+    apply List.map_congr_left
+    intro e he
+    simp [hd.2.2 e he]
+  refine ⟨?_, ?_, ?_, rfl, ?_, by rw [hl]; exact hd.2.1⟩
   · simp [len, iter, lock_length hd.1]
   · intro k
-    have hl : (iter d).map lowerU = d.keys.map Prod.fst := by
-      simp only [iter, List.map_map]
-      apply List.map_congr_left
-      intro e he
-      simp [hd.2.2 e he]
     rw [hl, ← hd.1]
     simp only [contains, dhas]
-    have := dget_none_iff d.dict (lowerU k)
-    cases h : dget d.dict (lowerU k) with
+    have := dget_none_iff d.dict (norm k)
+    cases h : dget d.dict (norm k) with
     | none => simp [this.1 h]
     | some x =>
       simp only [Option.isSome_some, true_iff]
       apply Classical.byContradiction
       intro hn; rw [this.2 hn] at h; cases h
-  · refine ⟨_, items_abs hd, ?_, ?_⟩
+  · refine ⟨_, items_abs hd, ?_, ?_, ?_⟩
     · rw [iter_abs hd]; simp [OMap.items, OMap.keys]
     · intro p hp
       rw [getItem_abs hd]
@@ -168,26 +196,29 @@ theorem C13_len_contains_iter_agree (d : CIDict V) (hd : CIDict.Inv d) :
       | cons e m ih =>
         obtain ⟨l, sp, w⟩ := e
         simp only [OMap.items, List.map_cons, List.mem_cons] at hp
-        have hl : l = lowerU sp := hwf.1 (l, sp, w) (by simp)
+        have hl : l = norm sp := hwf.1 (l, sp, w) (by simp)
         rcases hp with hp | hp
         · subst hp; simp [OMap.get, hl]
         · have hnd := hwf.2
           simp only [List.map_cons, List.nodup_cons] at hnd
-          have hne : l ≠ lowerU p.1 := by
+          have hne : l ≠ norm p.1 := by
             intro he
             apply hnd.1
             obtain ⟨e', he', hpe⟩ := List.mem_map.1 hp
-            have : e'.1 = lowerU e'.2.1 := hwf.1 e' (List.mem_cons_of_mem _ he')
+            have : e'.1 = norm e'.2.1 := hwf.1 e' (List.mem_cons_of_mem _ he')
             rw [he, ← hpe]
             exact List.mem_map.2 ⟨e', he', this⟩
           simp only [OMap.get, if_neg hne]
           exact ih hp ⟨fun e he => hwf.1 e (List.mem_cons_of_mem _ he), hnd.2⟩
+    · simp [values, items_abs hd]
+  · have : len d = (iter d).length := by simp [len, iter, lock_length hd.1]
+    simp only [truth, this, bne_iff_ne, ne_eq, List.length_eq_zero_iff]
 
 /-- Case-lowering: the keys are lower-cased, order and values are kept. -/
-theorem C13_lower (d : CIDict V) (hd : CIDict.Inv d) :
-    ∃ d', lowered d = some d' ∧ CIDict.Inv d' ∧ iter d' = (iter d).map lowerU ∧
-      items d' = (items d).map (fun its => its.map fun p => (lowerU p.1, p.2)) := by
-  obtain ⟨d', h1, h2, h3⟩ := lowered_spec hd
+theorem C13_lower (hn : ∀ k, norm (norm k) = norm k) (d : CIDict V) (hd : CIDict.Inv norm d) :
+    ∃ d', lowered norm d = some d' ∧ CIDict.Inv norm d' ∧ iter d' = (iter d).map norm ∧
+      items norm d' = (items norm d).map (fun its => its.map fun p => (norm p.1, p.2)) := by
+  obtain ⟨d', h1, h2, h3⟩ := lowered_spec hn hd
   have hwf := (abs_wf hd).1
   refine ⟨d', h1, h2, ?_, ?_⟩
   · rw [iter_abs h2, h3, iter_abs hd]
@@ -200,14 +231,9 @@ theorem C13_lower (d : CIDict V) (hd : CIDict.Inv d) :
     apply List.map_congr_left
     intro e he; simp [hwf e he]
 
-/-- The defaulting variant yields its default for an absent key and stores nothing. -/
-theorem C13_default_no_insert (d : CIDict V) (k : Str) (dflt : V) (hk : getItem d k = none) :
-    CIDict.step d (.getDefault k dflt) = (d, .val dflt) := by
-  simp [CIDict.step, getItemDefault, hk]
-
 /-- Frame: writing or deleting one key leaves the lookup of every other key unchanged. -/
-theorem C13_frame (d : CIDict V) (k k' : Str) (v : V) (hne : lowerU k' ≠ lowerU k) :
-    getItem (setItem d k v) k' = getItem d k' ∧ getItem (delItem d k).1 k' = getItem d k' := by
+theorem C13_frame (d : CIDict V) (k k' : Str) (v : V) (hne : norm k' ≠ norm k) :
+    getItem norm (setItem norm d k v) k' = getItem norm d k' ∧ getItem norm (delItem norm d k).1 k' = getItem norm d k' := by
   constructor
   · simp [getItem, setItem, dget_dset_ne _ _ _ _ hne]
   · unfold delItem
@@ -215,16 +241,158 @@ theorem C13_frame (d : CIDict V) (k k' : Str) (v : V) (hne : lowerU k' ≠ lower
     · split <;> simp [getItem, dget_ddel_ne _ _ _ hne]
     · rfl
 
-/-- The case-insensitive set: every history of add / discard / remove / lookups / lowerU from
-any initial list behaves like the reference set, and the set of lower-cased keys stays equal to
-the key table's domain. -/
-theorem C13_set_refines (init : List Str) (ops : List SOp) :
-    CISet.Inv (CISet.run (CISet.ofList init) ops).1 ∧
-    CISet.abs (CISet.run (CISet.ofList init) ops).1 = (OSet.run (init.foldl OSet.add []) ops).1 ∧
-    (CISet.run (CISet.ofList init) ops).2 = (OSet.run (init.foldl OSet.add []) ops).2 := by
-  have h := CISet.ofList_spec init
-  have := CISet.run_refines h.1 ops
+/-! ### The defaulting variant -/
+
+/-- `CaseInsensitiveDefaultDict`: every history of operations (including `get`, `setdefault`, `pop`,
+`popitem`, `update`, `clear`, `lower()` and the counting idiom `d[k] = f(d[k])`) on the model of the
+class, started empty, produces exactly the results of the defaulting reference map `OMap.runD`, and
+the two tables stay in lock step. -/
+theorem C13_default_refines (hn : ∀ k, norm (norm k) = norm k) (fac : V) (ops : List (Op V)) :
+    CIDict.Inv norm (DD.run norm fac empty ops).1 ∧
+    CIDict.abs (DD.run norm fac empty ops).1 = (OMap.runD norm fac [] ops).1 ∧
+    (DD.run norm fac empty ops).2 = (OMap.runD norm fac [] ops).2 :=
+  DD.run_refines hn inv_empty ops
+
+/-- counting with the defaulting variant (absent keys start from the factory value and are not
+inserted by being read; `get` / `setdefault` / `pop` behave as in a map) -/
+theorem C13_default_refines_nonvacuous :
+    (DD.run lowerPy (0 : Int) empty
+      [.get "x".toList, .len, .modify "X".toList (· + 1), .modify "x".toList (· + 1), .items,
+       .getD "y".toList 5, .setDefault "Y".toList 5, .popD "z".toList 9, .pop "z".toList, .items]).2
+      = [.val 0, .nat 0, .unit, .unit, .items [("x".toList, 2)],
+         .val 5, .val 5, .val 9, .keyError, .items [("x".toList, 2), ("Y".toList, 5)]] := by
+  decide +kernel
+
+/-- What the defaulting reference map is: the SAME ordered map, except that looking up an absent key
+yields the default — and leaves the map as it is (nothing is inserted); reading a present key, and
+every operation other than `d[k]` / `d[k] = f(d[k])`, is the plain map's. -/
+theorem C13_default_no_insert (fac : V) (m : OMap V) :
+    (∀ k, OMap.get norm m k = none → OMap.stepD norm fac m (.get k) = (m, .val fac)) ∧
+    (∀ k, OMap.get norm m k ≠ none → OMap.stepD norm fac m (.get k) = OMap.step norm m (.get k)) ∧
+    (∀ k f, OMap.get norm m k ≠ none → OMap.stepD norm fac m (.modify k f) = OMap.step norm m (.modify k f)) ∧
+    (∀ k f, OMap.get norm m k = none →
+        OMap.stepD norm fac m (.modify k f) = OMap.step norm m (.set k (f fac))) ∧
+    (∀ op, (∀ k, op ≠ .get k) → (∀ k f, op ≠ .modify k f) → OMap.stepD norm fac m op = OMap.step norm m op) := by
+  refine ⟨?_, ?_, ?_, ?_, ?_⟩
+  · intro k h; simp [OMap.stepD, h]
+  · intro k h
+    cases hg : OMap.get norm m k with
+    | none => exact absurd hg h
+    | some v => simp [OMap.stepD, OMap.step, hg]
+  · intro k f h
+    cases hg : OMap.get norm m k with
+    | none => exact absurd hg h
+    | some v => simp [OMap.stepD, OMap.step, hg]
+  · intro k f h; simp [OMap.stepD, OMap.step, h]
+  · intro op h1 h2
+    cases op with
+    | get k => exact absurd rfl (h1 k)
+    | modify k f => exact absurd rfl (h2 k f)
+    | _ => rfl
+
+/-- the same on the model of the code: on a reachable state, for an absent key, `d[k]` yields the
+factory value and changes nothing, `get` and `pop` yield the caller's default and change nothing,
+`pop` without default raises, `setdefault` writes the caller's default -/
+theorem C13_default_absent (d : CIDict V) (fac : V) (k : Str) (hk : contains norm d k = false) :
+    DD.step norm fac d (.get k) = (d, .val fac) ∧
+    (∀ x, DD.step norm fac d (.getD k x) = (d, .val x)) ∧
+    (∀ x, DD.step norm fac d (.popD k x) = (d, .val x)) ∧
+    DD.step norm fac d (.pop k) = (d, .keyError) ∧
+    (∀ x, DD.step norm fac d (.setDefault k x) = (setItem norm d k x, .val x)) := by
+  have hg : CIDict.getItem norm d k = none := by
+    simp only [contains, dhas] at hk
+    simp only [CIDict.getItem]
+    cases h : dget d.dict (norm k) with
+    | none => rfl
+    | some v => rw [h] at hk; simp at hk
+  refine ⟨by simp [DD.step, DD.getItem, hg], ?_, ?_, ?_, ?_⟩
+  · intro x; simp [DD.step, DD.getD, hk]
+  · intro x; simp [DD.step, DD.pop, hk]
+  · simp [DD.step, DD.pop, hk]
+  · intro x; simp [DD.step, DD.setDefault, hk, DD.getItem, CIDict.getItem, setItem, dget_dset_same]
+
+/-- the hypothesis of `C13_default_absent` holds of a reachable state and a key that is absent up to case -/
+theorem C13_default_absent_nonvacuous :
+    contains lowerPy (CIDict.ofPairs lowerPy [("A".toList, (1 : Int))]) "b".toList = false ∧
+    contains lowerPy (CIDict.ofPairs lowerPy [("A".toList, (1 : Int))]) "a".toList = true := by decide +kernel
+
+/-! ### The set -/
+
+/-- The case-insensitive set: every history of add / discard / remove / pop / clear / `|=` / `-=` /
+look-ups / len / iteration / lower() from any initial list behaves like the reference set, and the
+set of lower-cased keys stays equal to the key table's domain. -/
+theorem C13_set_refines (hn : ∀ k, norm (norm k) = norm k) (init : List Str) (ops : List SOp) :
+    CISet.Inv norm (CISet.run norm (CISet.ofList norm init) ops).1 ∧
+    CISet.abs (CISet.run norm (CISet.ofList norm init) ops).1 = (OSet.run norm (init.foldl (OSet.add norm) []) ops).1 ∧
+    (CISet.run norm (CISet.ofList norm init) ops).2 = (OSet.run norm (init.foldl (OSet.add norm) []) ops).2 := by
+  have h := CISet.ofList_spec (norm := norm) init
+  have := CISet.run_refines hn h.1 ops
   rw [h.2] at this
   exact this
+
+theorem C13_set_refines_nonvacuous :
+    (CISet.run lowerPy (CISet.ofList lowerPy ["Aaa".toList, "aAA".toList, "ΑΣ".toList])
+      [.len, .canonical "AAA".toList, .pop "ας".toList, .iter, .ior ["B".toList, "b".toList], .isub ["AAA".toList],
+       .canonical "b".toList, .remove "aaa".toList, .clear, .len]).2
+      = [.nat 2, .str "aAA".toList, .str "ας".toList, .strs ["aaa".toList], .unit, .unit,
+         .str "b".toList, .keyError, .unit, .nat 0] := by
+  decide +kernel
+
+/-- The set's length, containment, iteration and remembered spellings agree with each other on every
+reachable state: the members are pairwise distinct normal forms, `len` counts them, `in` is
+membership of the normal form, and exactly the members have a remembered spelling, which
+normalises to the member. -/
+theorem C13_set_len_contains_iter_agree (s : CISet) (hs : CISet.Inv norm s) :
+    s.len = s.iter.length ∧ s.iter.Nodup ∧
+    (∀ k, s.contains norm k = true ↔ norm k ∈ s.iter) ∧
+    (∀ k, (∃ sp, s.canonical norm k = some sp ∧ norm sp = norm k) ↔ s.contains norm k = true) ∧
+    (s.spellings).map norm = s.iter := by
+  obtain ⟨h1, h2, h3⟩ := hs
+  have hsp : (s.spellings).map norm = s.iter := by
+    simp only [CISet.spellings, CISet.iter, h1, List.map_map]
+    apply List.map_congr_left
+    intro e he
+    simp [h3 e he]
+  refine ⟨rfl, by simpa [CISet.iter, h1] using h2, ?_, ?_, hsp⟩
+  · intro k; simp [CISet.contains, CISet.iter]
+  · intro k
+    simp only [CISet.canonical, CISet.contains, h1]
+    constructor
+    · rintro ⟨sp, hsp', _⟩
+      have : dhas s.keys (norm k) = true := by simp [dhas, hsp']
+      simpa using (dhas_iff_mem _ _).1 this
+    · intro hc
+      have hm : norm k ∈ s.keys.map Prod.fst := by simpa using hc
+      have hhas := (dhas_iff_mem s.keys (norm k)).2 hm
+      simp only [dhas] at hhas
+      cases hg : dget s.keys (norm k) with
+      | none => rw [hg] at hhas; simp at hhas
+      | some sp =>
+        refine ⟨sp, rfl, ?_⟩
+        have : (norm k, sp) ∈ s.keys := dget_some_mem hg
+        exact (h3 _ this).symm
+
+/-- the invariant assumed by `C13_set_len_contains_iter_agree` holds of every constructed set, e.g. one with two spellings of a member -/
+theorem C13_set_len_contains_iter_agree_nonvacuous :
+    CISet.Inv lowerPy (CISet.ofList lowerPy ["Aaa".toList, "aAA".toList, "b".toList]) ∧
+    (CISet.ofList lowerPy ["Aaa".toList, "aAA".toList, "b".toList]).len = 2 :=
+  ⟨(CISet.ofList_spec _).1, by decide +kernel⟩
+
+/-! ### The interpreter's `str.lower()` -/
+
+/-- `s.lower().lower() == s.lower()` for the model of `str.lower()` the driver runs with (whole
+strings: per-character table, U+0130 expansion, final-sigma rule): the hypothesis `hn` of the
+theorems above holds for it. -/
+theorem C13_lower_idempotent (s : Str) : lowerPy (lowerPy s) = lowerPy s := lowerPy_idem s
+
+/-- the refinement theorems for the normaliser the driver runs with -/
+theorem C13_refines_lowerPy (ps : List (Str × V)) (ops : List (Op V)) (fac : V) (init : List Str) (sops : List SOp) :
+    (CIDict.abs (CIDict.run lowerPy (CIDict.ofPairs lowerPy ps) ops).1 = (OMap.run lowerPy (OMap.ofPairs lowerPy ps) ops).1 ∧
+     (CIDict.run lowerPy (CIDict.ofPairs lowerPy ps) ops).2 = (OMap.run lowerPy (OMap.ofPairs lowerPy ps) ops).2) ∧
+    (CIDict.abs (DD.run lowerPy fac empty ops).1 = (OMap.runD lowerPy fac [] ops).1 ∧
+     (DD.run lowerPy fac empty ops).2 = (OMap.runD lowerPy fac [] ops).2) ∧
+    (CISet.abs (CISet.run lowerPy (CISet.ofList lowerPy init) sops).1 = (OSet.run lowerPy (init.foldl (OSet.add lowerPy) []) sops).1 ∧
+     (CISet.run lowerPy (CISet.ofList lowerPy init) sops).2 = (OSet.run lowerPy (init.foldl (OSet.add lowerPy) []) sops).2) :=
+  ⟨C13_refines lowerPy_idem ps ops, (C13_default_refines lowerPy_idem fac ops).2, (C13_set_refines lowerPy_idem init sops).2⟩
 
 end Pybtex.Props
